@@ -7,7 +7,7 @@ ID = "C03"
 LEVEL = "fault_enumeration"
 RULE = (
     "(a) every size field (commandSize, responseSize, authSize, parameterSize, every nested TPM2B size) of every hypothesis-generated "
-    "well-formed message x {-1,-2,-5,+1,+2,+5, 0, max, fits-the-enclosing-region-exactly, exceeds-it-by-one}; (b) exhaustive: all byte "
+    "well-formed message x {-k,+k (k in 1,2,3,4,5,8), 0, max, fits-the-enclosing-region-exactly, exceeds-it-by-one}; (b) exhaustive: all byte "
     "strings up to a length bound over a small alphabet for 4 synthetic nested TPM2B/list/union types. Oracle: reference strict "
     "decoder (acceptable outcome set: error class, violated size field's path, limit, bytes counted, offending field, excess; exact "
     "events before the raise; accept-side checked both ways). Non-trivial = the perturbed field is nested >= 1 region deep, or the "
@@ -63,9 +63,9 @@ def run_shard(ctx):
     body = lambda case: check_case(ctx, L, case)  # noqa: E731
     q = ctx.quick()
     ctx.run_plain(lambda: synthetic_part(ctx, 8 if q else 9, [0, 1, 2, 3] if q else [0, 1, 2, 3, 0xFF]), "synthetic")
-    ctx.run_given(gen.commands(L), body, ctx.share(250 if q else 4000), name="commands")
-    ctx.run_given(gen.responses(L, failed=False), body, ctx.share(250 if q else 4000), name="responses")
-    ctx.run_given(gen.structures(L), body, ctx.share(250 if q else 5000), name="structures")
+    ctx.run_given(gen.commands(L, rare=False), body, ctx.share(400 if q else 4000), name="commands")
+    ctx.run_given(gen.responses(L, rare=False, unknown_cc=False), body, ctx.share(500 if q else 5000), name="responses")
+    ctx.run_given(gen.structures(L, rare=False), body, ctx.share(300 if q else 5000), name="structures")
     ctx.run_given(gen.streams(L, max_pairs=2), body, ctx.share(60 if q else 1000), name="streams")
 
 
